@@ -258,6 +258,12 @@ func (o *PubSub[T]) Unsub(sub <-chan T) error {
 	}
 	removed := o.subs[idx]
 	o.subs = append(o.subs[:idx], o.subs[idx+1:]...)
+	if removed.removed() {
+		// unsubscribed already, through another publisher that shares the
+		// subscription (WithOnly): that call closes the channel
+		o.mu().Unlock()
+		return ErrAlreadyUnsubscribed
+	}
 	close(removed.done)
 	o.mu().Unlock()
 	removed.close()
@@ -275,11 +281,16 @@ func (s *subscription[T]) close() {
 // UnsubAll unsubscribes all subscription channels, rendering them all useless.
 func (o *PubSub[T]) UnsubAll() error {
 	o.mu().Lock()
-	removed := o.subs
-	o.subs = nil
-	for _, sub := range removed {
-		close(sub.done)
+	var removed []*subscription[T]
+	for _, sub := range o.subs {
+		// skip what another publisher sharing the subscription (WithOnly) has
+		// unsubscribed already: that call closes the channel
+		if !sub.removed() {
+			close(sub.done)
+			removed = append(removed, sub)
+		}
 	}
+	o.subs = nil
 	o.mu().Unlock()
 	for _, sub := range removed {
 		sub.close()
